@@ -578,7 +578,7 @@ def fn_digests():
 
 # ------------------------------------------------------------------------------------------------
 
-def translate_fn(name, params, body, known):
+def translate_fn(name, params, body, known, consts=None):
     """Rust const fn body (a single arithmetic expression) -> Lean expression"""
     e = body
     e = re.sub(r"size_of::<u32>\(\)", "4", e)
@@ -596,6 +596,9 @@ def translate_fn(name, params, body, known):
         e = re.sub(r"\b([a-z_][a-z_0-9]*)\(([^()]*)\)", call, e)
     if not re.fullmatch(r"[\w\s+*()]+", e):
         raise TieBroken("const fn %s has an expression outside the supported grammar: %s" % (name, body))
+    # named constants are inlined by value, so that re-spelling an expression (23 -> PRNG_SEED) does not change the model text
+    if consts:
+        e = re.sub(r"\b[A-Z][A-Z0-9_]*\b", lambda m: str(consts[m.group(0)]) if m.group(0) in consts else m.group(0), e)
     return e
 
 
@@ -711,13 +714,13 @@ def generate():
     known = set()
     for fname in ["prng_len", "iter_len", "lmots_signature_length", "lms_public_key_length", "lms_signature_length"]:
         params, body = cs["fns"][fname]
-        le = translate_fn(fname, params, body, known)
+        le = translate_fn(fname, params, body, known, env)
         c.append("def %s %s : Nat := %s" % (fname, " ".join("(%s : Nat)" % p for p in params), le))
         known.add(fname)
     # hss_signed_public_key_length refers to MAX_LMS_PUBLIC_KEY_LENGTH = lms_public_key_length(MAX_HASH_SIZE)
     params, body = cs["fns"]["hss_signed_public_key_length"]
     body2 = body.replace("MAX_LMS_PUBLIC_KEY_LENGTH", "(lms_public_key_length (MAX_HASH_SIZE))")
-    le = translate_fn("hss_signed_public_key_length", params, body2.replace("(lms_public_key_length (MAX_HASH_SIZE))", "MAXLMSPK"), known)
+    le = translate_fn("hss_signed_public_key_length", params, body2.replace("(lms_public_key_length (MAX_HASH_SIZE))", "MAXLMSPK"), known, env)
     le = le.replace("MAXLMSPK", "(lms_public_key_length MAX_HASH_SIZE)")
     c.append("def hss_signed_public_key_length %s : Nat := %s" % (" ".join("(%s : Nat)" % p for p in params), le))
     c.append("")
